@@ -3,6 +3,7 @@ package variablesvalidation
 import (
 	"bytes"
 	"fmt"
+	"math"
 
 	"github.com/wundergraph/astjson"
 
@@ -378,6 +379,18 @@ func (v *variablesVisitor) traverseFieldDefinitionType(fieldTypeDefinitionNodeKi
 	v.traverseNamedTypeNode(jsonValue, v.definition.ResolveTypeNameBytes(typeRef))
 }
 
+// numberIsIntegral reports whether a JSON number has no fractional part (1, 1.0 and 1e3 do, 1.5 does not).
+func numberIsIntegral(jsonValue *astjson.Value) bool {
+	f, err := jsonValue.Float64()
+	return err == nil && f == math.Trunc(f)
+}
+
+// numberIsInt32 reports whether a JSON number is an integer in the signed 32-bit range of the Int scalar.
+func numberIsInt32(jsonValue *astjson.Value) bool {
+	f, err := jsonValue.Float64()
+	return err == nil && f == math.Trunc(f) && f >= math.MinInt32 && f <= math.MaxInt32
+}
+
 func (v *variablesVisitor) violatesOneOfConstraint(inputObjectDefRef int, jsonValue *astjson.Value, typeName []byte) bool {
 	def := v.definition.InputObjectTypeDefinitions[inputObjectDefRef]
 
@@ -490,7 +503,7 @@ func (v *variablesVisitor) traverseNamedTypeNode(jsonValue *astjson.Value, typeN
 				return
 			}
 		case "Int":
-			if jsonValue.Type() != astjson.TypeNumber {
+			if jsonValue.Type() != astjson.TypeNumber || !numberIsInt32(jsonValue) {
 				v.renderVariableInvalidNestedTypeError(jsonValue, fieldTypeDefinitionNode.Kind, typeName, false)
 				return
 			}
@@ -505,7 +518,7 @@ func (v *variablesVisitor) traverseNamedTypeNode(jsonValue *astjson.Value, typeN
 				return
 			}
 		case "ID":
-			if jsonValue.Type() != astjson.TypeString && jsonValue.Type() != astjson.TypeNumber {
+			if jsonValue.Type() != astjson.TypeString && (jsonValue.Type() != astjson.TypeNumber || !numberIsIntegral(jsonValue)) {
 				v.renderVariableInvalidNestedTypeError(jsonValue, fieldTypeDefinitionNode.Kind, typeName, false)
 				return
 			}
